@@ -707,6 +707,48 @@ def contig_cases(tier, rng):
     return out
 
 
+def history_cases(tier, rng):
+    """histories of blacklisted_binning_contigs calls made in one process with contig_length_resource = BAM path:
+    the BAM at a path is rewritten between calls (contig shortened / lengthened / added / removed / unchanged),
+    the BED file at a path is rewritten or another BED / bin size / fragment size is used"""
+    out = []
+    for _ in range(10 if tier == 'quick' else 120):
+        names = ['chr%s' % x for x in rng.sample(['1', '2', 'X', 'M'], rng.randint(1, 3))]
+        contigs = [[n, rng.choice([1, 7, 30, 100, rng.randint(1, 300)])] for n in names]
+        bed, steps = None, []
+        for j in range(rng.randint(2, 5)):
+            if j:
+                what = rng.randint(0, 6)
+                contigs = [list(c) for c in contigs]
+                i = rng.randrange(len(contigs))
+                if what == 0:
+                    contigs[i][1] = max(1, contigs[i][1] - rng.randint(1, 40))      # shorter
+                elif what == 1:
+                    contigs[i][1] += rng.randint(1, 60)                              # longer
+                elif what == 2:
+                    contigs.append(['chrNew%d' % j, rng.randint(1, 120)])            # new contig
+                elif what == 3 and len(contigs) > 1:
+                    del contigs[i]                                                   # contig removed
+                elif what == 4:
+                    contigs = [[c, rng.randint(1, 200)] for c, _ in contigs]         # all lengths change
+                # 5, 6: header unchanged
+            if j == 0 or rng.random() < 0.5:
+                bed = None
+                if rng.random() < 0.85:
+                    bed = []
+                    for _ in range(rng.randint(0, 6)):
+                        n, ln = rng.choice(contigs)
+                        s = rng.randint(0, ln + 3)
+                        bed.append([n, s, s + rng.choice([0, 1, rng.randint(0, ln + 5)])])
+            steps.append({'contigs': [list(c) for c in contigs], 'bed': None if bed is None else [list(b) for b in bed],
+                          'gz': rng.random() < 0.3, 'bam_slot': 0 if rng.random() < 0.8 else 1,
+                          'bed_slot': 0 if rng.random() < 0.7 else 1,
+                          'bin_size': rng.choice([1, 3, 10, 25, 1000]), 'fragment_size': rng.choice([None, 0, 2, 15]),
+                          'whitelist': rng.choice([None, None, None, [contigs[0][0]]])})
+        out.append(steps)
+    return out
+
+
 # ============================================================================ chunk worker (own process)
 def nontrivial(c, out):
     fn = c[0]
@@ -870,12 +912,13 @@ class Prop(fw.PropBase):
         quick = self.tier == 'quick'
         rng = self.rng
         chunks = []
-        corpus, self.corpus_contigs = [], []
+        corpus, self.corpus_contigs, self.corpus_histories = [], [], []
         for p in sorted(glob.glob(os.path.join(CORPUS, '*.json'))):
             d = json.load(open(p))
             corpus += d.get('cases', [])
             self.corpus_contigs += d.get('contigs', [])
-        self.n_corpus = len(corpus) + len(self.corpus_contigs)
+            self.corpus_histories += d.get('histories', [])
+        self.n_corpus = len(corpus) + len(self.corpus_contigs) + len(self.corpus_histories)
         rnd = bb_random(rng, 6000 if quick else 60000) + bb_random(rng, 1500 if quick else 15000, big=True) \
             + bb_random(rng, 1000 if quick else 8000, outside_pre=True)
         small = small_streams(self.tier, rng)
@@ -908,8 +951,17 @@ class Prop(fw.PropBase):
         T['dis'] = sorted(T['dis'], key=lambda d: case_size(d['input']))[:10]
         # blacklisted_binning_contigs through a BED file
         cont = self.corpus_contigs + contig_cases(self.tier, self.rng)
-        cres = fw.run_impl('impl_c17.py', {'contigs': cont})
-        T['contigs'] = (cont, cres['contigs'])
+        hist = self.corpus_histories + history_cases(self.tier, self.rng)
+        cres = fw.run_impl('impl_c17.py', {'contigs': cont, 'histories': hist})
+        # every call of a history is one contig-level case, checked against the files as they were at that call
+        flat, fres = [], []
+        for hi, (h, hr) in enumerate(zip(hist, cres['histories'])):
+            for j, (st, r) in enumerate(zip(h, hr)):
+                st = dict(st)
+                st['history'] = {'index': hi, 'call': j, 'earlier_calls_in_same_process': h[:j]}
+                flat.append(st); fres.append(r)
+        T['n_histories'], T['n_history_calls'] = len(hist), len(flat)
+        T['contigs'] = (cont + flat, cres['contigs'] + fres)
         T['bp_same'] = cres.get('bp_chunked_same_object')
         return T
 
@@ -964,6 +1016,9 @@ class Prop(fw.PropBase):
             'impl_unexpected_exceptions': T['errors'],
             'corpus_cases': self.n_corpus,
             'contig_level_cases': len(cont),
+            'contig_level_histories': {'histories': T['n_histories'], 'calls': T['n_history_calls'],
+                                       'what': 'blacklisted_binning_contigs(<BAM path>, ...) called repeatedly in one process '
+                                               'while the BAM / BED at the same path is rewritten between calls'},
             'utils.bp_chunked is utils.binning.bp_chunked': T['bp_same'],
             'samples': [{'input': c, 'impl': o} for c, m, o in T['keep'][:: max(1, len(T['keep']) // 6)][:6]],
         })
